@@ -437,7 +437,7 @@ pub fn run(ctx: &Ctx) -> Outcome {
     }
     let n_large = 7 + n_large_random as u64;
     let ns = sizes.len();
-    let report = run_sharded(ctx, ns + 3, |shard, rep| {
+    let mut report = run_sharded(ctx, ns + 3, |shard, rep| {
         let mut rng = ctx.rng("size", shard as u64);
         if shard < ns {
             let (w, h, sampled) = sizes[shard];
@@ -469,6 +469,12 @@ pub fn run(ctx: &Ctx) -> Outcome {
             }
         }
     });
+    {
+        // the same calls from a thread-local destructor while a thread exits (see exitprobe.rs)
+        let mut at_exit = Report::new();
+        crate::exitprobe::check("page", MON, &mut at_exit);
+        report.merge(at_exit);
+    }
     let floors = vec![
         floor("every size of the box checked", report.get("box_sizes_done") == box_n as u64, report.get("box_sizes_done")),
         floor("11 real sizes and the tall / wide sizes checked pixel by pixel", report.get("real_sizes_done") == 11 + n_tall as u64, report.get("real_sizes_done")),
